@@ -50,6 +50,23 @@ pub fn finish(check: &dyn Check, tier: Tier, out: Outcome) -> i32 {
     for e in &acc.machinery_errors {
         println!("MACHINERY-ERROR: {}", e);
     }
+    let mut vacuity: Vec<String> = Vec::new();
+    if check.level() == "model_checking" && acc.execs > 200 {
+        // a schedule exploration in which no two threads ever touched the same object, or
+        // which produced a single schedule, has explored nothing
+        if acc.conflicting_execs == 0 {
+            vacuity.push("no execution had two threads touching a common object".to_string());
+        }
+        if acc.distinct_traces < 2 {
+            vacuity.push("all executions followed one and the same schedule".to_string());
+        }
+        if acc.outcomes.len() < 2 {
+            vacuity.push("all executions produced one and the same observation".to_string());
+        }
+    }
+    for v in &vacuity {
+        println!("MACHINERY-ERROR: vacuous exploration: {}", v);
+    }
     let exhaustive = !acc.capped && out.items_done == out.items_total && acc.machinery_errors.is_empty();
     let level = check.level();
     let mut coverage = json!({
@@ -114,7 +131,7 @@ pub fn finish(check: &dyn Check, tier: Tier, out: Outcome) -> i32 {
         "{} {}: {} evaluations ({} non-trivial, {} distinct outcomes), {} executions, {} items of {}, {:.1}s, exhaustive={}",
         id, tier.name(), acc.evals, acc.nontrivial, acc.outcomes.len(), acc.execs, out.items_done, out.items_total, out.wall_s, exhaustive
     );
-    if !acc.machinery_errors.is_empty() {
+    if !acc.machinery_errors.is_empty() || !vacuity.is_empty() {
         return 2;
     }
     if new_violations > 0 {
